@@ -6,6 +6,7 @@
   the delivered stream equals the unskipped stream with, for every skipped block,
   everything after its start callback up to and including its end callback removed.
 -/
+import CxxModel.Theorems.WholeParse
 import CxxModel.Theorems.SkipMain
 import CxxModel.Parser.Decl
 namespace Cxx
@@ -94,5 +95,22 @@ theorem prune_flat_block (skip : Nat → BlockHdr → Bool) (s e : Event) (body 
       simp [List.foldl_cons, this, ih (fun y hy => hx y (by simp [hy]))]
   have h3 : pruneStep skip (1, [s]) e = (0, [s]) := by simp [pruneStep, he]
   simp only [prune, pruneState, List.foldl_append, List.foldl_cons, List.foldl_nil, h1, h2 body hb, h3]
+
+
+/-- **whole sources under ANY set of skipped blocks**: for a source that is an `Item` (any number of declarations of the proven
+    forms, namespaces / extern blocks / classes nested to any depth) and a visitor that does not raise, the callbacks the
+    visitor receives are `prune skip` of `on_parse_start` followed by exactly the item's callbacks — the composition of the
+    whole-source theorem (no skipping) with the generic pruning theorem (every client program) -/
+theorem C05_whole_source_pruned (env : Env) (hp : RulesProgress env.cfg = true) (hnf : env.faultAt = none) (F D : Nat)
+    (it : Item env.noSkip F (P.core F D)) (filename : String) (content : Str) (bE bEE : Buf)
+    (hat : it.At { tokbuf := [], lex := { rest := content, filename := some filename } } bE)
+    (heof : tokenEofOk env.cfg bE = .ok (none, bEE)) (hF : it.size + 1 ≤ F) :
+    ∃ (start : Event) (evs : List Event),
+      (runParse env filename content (P.parserProg F D)).1.events = prune env.skip (start :: evs) ∧
+      start.kind = .parseStart ∧ it.Ev globalBlock [] evs := by
+  obtain ⟨wF, start, evs, hrun, hev, hstart, hE, _⟩ := parse_source env.noSkip hp hnf F D it filename content bE bEE hat heof hF
+  refine ⟨start, evs, ?_, hstart, hE⟩
+  rw [C05_parser env hnf filename content F D, hrun]
+  exact congrArg (prune env.skip) hev
 
 end Cxx
